@@ -9,7 +9,7 @@ PROP = Property(
     coq_targets=["Extract/Extract_Frame.vo"],
     engines=[Engine(name="chan20", c_srcs=["harness/sim.c", "harness/c20_drv.c"],
                     ml_srcs=["ocaml/gen/FrameModel.ml", "ocaml/c20_drv.ml"],
-                    gen=transportgen.gen_c20, wraps=WRAPS, n_quick=1500, n_thorough=40000, timeout=2400)],
+                    gen=transportgen.gen_c20, wraps=WRAPS, n_quick=1500, n_thorough=40000, timeout=1200)],
     trusted_base=["Coq 8.16.1 kernel + coqc", "extraction (ExtrOcamlBasic only) + OCaml 4.13.1",
                   "gen/c2gallina.py for the buffer cursor functions (ares_buf_len/consume/tag/tag_rollback/tag_clear), regenerated from the working tree",
                   "harness/sim.c (virtual sockets: chunked reads, partial writes), harness/c20_drv.c, ocaml/c20_drv.ml, gen/transportgen.py",
